@@ -197,6 +197,7 @@ def exec (line : String) : String :=
       let n' ← n.toNat?
       let (t, _) ← decTerm rest
       pure (showTerm (absN n' t))).getD "bad-op"
+  | ["udconst"] => showTerm Term.UD
   | _ => Drv2.exec2 toks
 
 partial def loop (h : IO.FS.Stream) (out : IO.FS.Stream) : IO Unit := do
